@@ -7,7 +7,7 @@
 // over k lines adds to the batch output over k-1 lines.  Grid: every sequence of up to 4 lines over a 7-line pool (one
 // non-admitted) x 7 aggregate statements (HAVING that a group can stop satisfying, DISTINCT, PERCENTILE) and 6 plain / DISTINCT statements, every prefix k.
 // Also: TEXT aggregates whose argument is NULL on the first lines of a group (STRING_AGG, MIN / MAX, ARRAY_AGG, COUNT(DISTINCT))
-// over a 5-line pool; INNER / OUTER JOIN statements (4 aggregate, 4 plain) over every sequence of up to 3 of 5 lines (with, without partner, NULL key); a split-pattern table in which blank and whitespace lines are rows.
+// over a 5-line pool; a table with a DEFAULT column (unmatched lines are rows); INNER / OUTER JOIN statements (8 aggregate, 4 plain; a key with two partners, WHERE on the joined side) over every sequence of up to 3 of 5 lines (with, without partner, NULL key); a split-pattern table in which blank and whitespace lines are rows.
 include!("verif_grid_common.rs");
 include!("verif_grid_qcommon.rs");
 
@@ -84,9 +84,18 @@ fn verif_grid() {
         for (si, st) in agg3.iter().enumerate() { let b1 = base.clone(); g.case(&format!("split-aggregate-b{}-s{}", bi, si), move || check_in(def3, st, true, &b1)); }
         for (si, st) in plain3.iter().enumerate() { let b1 = base.clone(); g.case(&format!("split-plain-b{}-s{}", bi, si), move || check_in(def3, st, false, &b1)); }
     }
+    // a table in which a line that no pattern matches is still a row (a column with a DEFAULT)
+    let def5 = "CREATE TABLE t(a = 'a=(\\\\d+)', b = 'b=(\\\\w+)', a[1] => x INT, b[1] => y TEXT DEFAULT 'unknown');";
+    let pool5 = ["a=1 b=q", "a=2", "nothing", "", "b=z"];
+    let agg5 = ["SELECT COUNT(*) AS n, SUM(x) AS s FROM t", "SELECT y, COUNT(*) AS n, COUNT(x) AS c FROM t GROUP BY y", "SELECT COUNT(*) AS n FROM t WHERE y = 'unknown' HAVING COUNT(*) > 1"];
+    for (bi, base) in sequences(&pool5, 3).into_iter().enumerate() {
+        if base.is_empty() { continue; }
+        for (si, st) in agg5.iter().enumerate() { let b1 = base.clone(); g.case(&format!("default-aggregate-b{}-s{}", bi, si), move || check_in(def5, st, true, &b1)); }
+        let b1 = base.clone(); g.case(&format!("default-plain-b{}", bi), move || check_in(def5, "SELECT x, y FROM t", false, &b1));
+    }
     // statements with a join, the joined file read before the first line (ExecutionEngine::with_executed_joined_table): lines with a partner,
     // without one and with a NULL key; INNER and OUTER
-    let joined = write_temp("joined", b"h=alpha site=eu\nh=beta site=us\n");
+    let joined = write_temp("joined", b"h=alpha site=eu\nh=beta site=us\nh=alpha site=ap\n");
     let def4 = "CREATE TABLE t(line = '^u=(\\\\w+) h=(\\\\w*) c=([0-9]*)$', line[1] => user TEXT, line[2] => host TEXT, line[3] => code INT); \
                 CREATE TABLE hosts(line = '^h=(\\\\w+) site=(\\\\w+)$', line[1] => name TEXT, line[2] => site TEXT);";
     let pool4 = ["u=ann h=alpha c=1", "u=bob h=beta c=2", "u=cy h=gamma c=500", "u=dee h= c=7", "u=eve h=alpha c="];
@@ -95,6 +104,8 @@ fn verif_grid() {
         let from = format!("FROM t {} JOIN hosts::'{}' ON t.host = hosts.name", kind, joined.display());
         join_statements.push((format!("SELECT COUNT(*) AS n, SUM(code) AS s, COUNT(hosts.site) AS c {}", from), true));
         join_statements.push((format!("SELECT hosts.site, COUNT(*) AS n, SUM(code) AS s {} GROUP BY hosts.site", from), true));
+        join_statements.push((format!("SELECT COUNT(*) AS n, SUM(code) AS s {} WHERE hosts.site = 'eu'", from), true));
+        join_statements.push((format!("SELECT user, COUNT(*) AS n {} WHERE hosts.site != 'eu' GROUP BY user", from), true));
         join_statements.push((format!("SELECT user, hosts.site {}", from), false));
         join_statements.push((format!("SELECT user {} WHERE hosts.site IS NULL", from), false));
     }
